@@ -595,7 +595,9 @@ func (g *graph) entry() {
 		if dir.Command != "ignore" && dir.Command != "file-ignore" {
 			continue
 		}
-		if len(dir.Arguments) == 0 {
+		if len(dir.Arguments) < 2 {
+			// Directives without a reason are malformed and get flagged
+			// as such by the linter. They don't ignore anything.
 			continue
 		}
 		// Match check names the same way the linter matches them for all
